@@ -9,7 +9,7 @@ namespace OdeVerif.Generated
 open OdeVerif
 
 -- source: odetoolbox/spike_generator.py :: SpikeGenerator._generate_regular_spikes
-/-- `while t < T:` of `_generate_regular_spikes` (fuel = maximal number of iterations; `none` = out of fuel) -/
+/-- `while t < T:` of `_generate_regular_spikes` (fuel = maximal number of iterations) -/
 def regularSpikes_while1 {α : Type} [Add α] [Div α] [OfNat α 0] [OfNat α 1] [LT α] [LE α] [DecidableLT α] [DecidableLE α] (T : α) (isi : α) : Nat → α → List α → Option (α × List α)
   | 0, _, _ => none
   | fuel + 1, t, spike_times =>
@@ -35,7 +35,7 @@ def regularSpikes {α : Type} [Add α] [Div α] [OfNat α 0] [OfNat α 1] [LT α
     some spike_times
 
 -- source: odetoolbox/spike_generator.py :: SpikeGenerator._generate_homogeneous_poisson_spikes
-/-- `while t < T:` of `_generate_homogeneous_poisson_spikes` (fuel = maximal number of iterations; `none` = out of fuel) -/
+/-- `while t < T:` of `_generate_homogeneous_poisson_spikes` (fuel = maximal number of iterations) -/
 def poissonSpikes_while1 {α : Type} [Add α] [OfNat α 0] [LT α] [LE α] [DecidableLT α] [DecidableLE α] (T : α) (min_isi : α) : Nat → List α → α → List α → Option (List α × α × List α)
   | 0, _, _, _ => none
   | fuel + 1, isis, t, spike_times =>
